@@ -6,11 +6,11 @@
 // net.Pipe whose far end is driven by a scripted fake peer. One scenario per stdin line, one line of
 // observations per scenario.
 //
-//   (sim (global <as> <routerid> <opt>...) (peers <peer>...) (steps <step>...))
-//   peer : (<name> <addr> <as> <opt>...)   opts: rr rs ap<sendmax> aprecv hold<sec> gr<sec> ...
-//   steps: (up p [capopts])  (close p)  (notif p code sub)  (upd p <route|withdraw>...)  (raw p hex)
-//          (eor p)  (wait)  (sleep sec)  (obs)  (addpeer <peer>) (delpeer p) (apiadd <route>) (apidel <prefix>)
-//   route: (a prefix pathid (aspath...) med lp origin (communities...))   withdraw: (w prefix pathid)
+//	(sim (global <as> <routerid> <opt>...) (peers <peer>...) (steps <step>...))
+//	peer : (<name> <addr> <as> <opt>...)   opts: rr rs ap<sendmax> aprecv hold<sec> gr<sec> ...
+//	steps: (up p [capopts])  (close p)  (notif p code sub)  (upd p <route|withdraw>...)  (raw p hex)
+//	       (eor p)  (wait)  (sleep sec)  (obs)  (addpeer <peer>) (delpeer p) (apiadd <route>) (apidel <prefix>)
+//	route: (a prefix pathid (aspath...) med lp origin (communities...))   withdraw: (w prefix pathid)
 package sim
 
 import (
@@ -57,24 +57,24 @@ type entry struct {
 }
 
 type fakePeer struct {
-	name     string
-	addr     netip.Addr
-	as       uint32
-	id       netip.Addr
-	conn     net.Conn
-	mu       sync.Mutex
-	view     map[string]entry // key "prefix#pathid"
-	notifs   []string
-	eors     int
-	updates  int
-	keepal   int
-	closed   bool
-	opened   bool
-	times    []string // (virtual second, kind) of received messages
-	opt      *bgp.MarshallingOption
-	sendOpt  *bgp.MarshallingOption
-	start    time.Time
-	done     chan struct{}
+	name    string
+	addr    netip.Addr
+	as      uint32
+	id      netip.Addr
+	conn    net.Conn
+	mu      sync.Mutex
+	view    map[string]entry // key "prefix#pathid"
+	notifs  []string
+	eors    int
+	updates int
+	keepal  int
+	closed  bool
+	opened  bool
+	times   []string // (virtual second, kind) of received messages
+	opt     *bgp.MarshallingOption
+	sendOpt *bgp.MarshallingOption
+	start   time.Time
+	done    chan struct{}
 }
 
 func attrSummary(attrs []bgp.PathAttributeInterface) string {
@@ -214,12 +214,13 @@ func (p *fakePeer) send(m *bgp.BGPMessage, opt *bgp.MarshallingOption) error {
 
 // ---- scenario ----
 type world struct {
-	t      *testing.T
-	s      *server.BgpServer
-	peers  map[string]*fakePeer
-	out    []string
-	global sx.Node
-	local  netip.Addr
+	start    int64
+	t        *testing.T
+	s        *server.BgpServer
+	peers    map[string]*fakePeer
+	out      []string
+	global   sx.Node
+	local    netip.Addr
 	peerConf map[string]*oc.Neighbor
 }
 
@@ -439,6 +440,19 @@ func routeAttrs(r sx.Node, nhop string) []bgp.PathAttributeInterface {
 		}
 		attrs = append(attrs, bgp.NewPathAttributeCommunities(cs))
 	}
+	// optional: ORIGINATOR_ID (atom or -) and CLUSTER_LIST
+	if r.Len() > 8 && r.At(8).Atom != "-" && r.At(8).Atom != "" {
+		o, _ := bgp.NewPathAttributeOriginatorId(v4(r.At(8).Atom))
+		attrs = append(attrs, o)
+	}
+	if r.Len() > 9 && r.At(9).Len() > 0 {
+		var cl []netip.Addr
+		for _, c := range r.At(9).List {
+			cl = append(cl, v4(c.Atom))
+		}
+		a, _ := bgp.NewPathAttributeClusterList(cl)
+		attrs = append(attrs, a)
+	}
 	return attrs
 }
 
@@ -514,7 +528,7 @@ func (w *world) obs() {
 			if p.PeerAddress.IsValid() {
 				src = p.PeerAddress.String()
 			}
-			ps = append(ps, fmt.Sprintf("(%s %d %s %s %s)", src, p.RemoteID, sx.B(p.Best), sx.B(p.Stale), attrSummary(p.Attrs)))
+			ps = append(ps, fmt.Sprintf("(%s %d %s %s %s %d)", src, p.RemoteID, sx.B(p.Best), sx.B(p.Stale), attrSummary(p.Attrs), p.Age-w.start))
 		}
 		rib = append(rib, "("+prefix.String()+" "+strings.Join(ps, " ")+")")
 	})
@@ -645,7 +659,7 @@ func runScenario(t *testing.T, line string) (out string) {
 		g := sc.At(1)
 		s := server.NewBgpServer()
 		go s.Serve()
-		w = &world{t: t, s: s, peers: map[string]*fakePeer{}, global: g, local: v4("10.0.0.254"), peerConf: map[string]*oc.Neighbor{}}
+		w = &world{start: time.Now().Unix(), t: t, s: s, peers: map[string]*fakePeer{}, global: g, local: v4("10.0.0.254"), peerConf: map[string]*oc.Neighbor{}}
 		global := &api.Global{Asn: uint32(g.At(1).Uint()), RouterId: g.At(2).Atom, ListenPort: -1}
 		if err := s.StartBgp(context.Background(), &api.StartBgpRequest{Global: global}); err != nil {
 			w.out = append(w.out, "(startbgp-error)")
@@ -655,8 +669,13 @@ func runScenario(t *testing.T, line string) (out string) {
 			w.peerConf[p.At(0).Atom] = w.neighbor(p)
 			w.addPeer(p)
 		}
+		sync := g.Len() > 3 && g.At(3).Atom == "sync"
 		for _, st := range sc.At(3).List[1:] {
 			w.step(st)
+			if sync {
+				// one event at a time: the speaker is quiescent before the next step starts
+				synctest.Wait()
+			}
 		}
 		synctest.Wait()
 		for _, p := range w.peers {
